@@ -3,6 +3,7 @@ import JivaVerif.Expected
 import JivaVerif.Model.Controller
 import JivaVerif.Model.DiffDisk
 import JivaVerif.Model.Rpc
+import JivaVerif.Model.Cluster
 /-!
 # Tie (T1): the regenerated facts agree with what the models use
 
@@ -30,6 +31,23 @@ theorem mwSync (w re : Nat) : Gen.mwSyncOk w re = Ctl.majorityOk w re := by
   unfold Gen.mwSyncOk Ctl.majorityOk; simp
 theorem mwUnmap (w re : Nat) : Gen.mwUnmapOk w re = Ctl.majorityOk w re := by
   unfold Gen.mwUnmapOk Ctl.majorityOk; simp
+
+/-- the whole-volume model (`Model/Cluster.lean`) uses the same regenerated expressions: its read-only
+    gate is `UpdateVolStatus`'s test, the majority its election waits for is `registerReplica`'s, the
+    acknowledgement rule of its write step is `MultiWriterAt`'s -/
+theorem clusterGate (s : Cluster.Sys) :
+    decide (s.rwCount < s.quorum) = !Gen.volStatusRW s.rwCount s.rf 0 := by
+  rw [volStatus]; unfold Cluster.Sys.quorum
+  by_cases h : s.rwCount < s.rf / 2 + 1
+  · have : ¬ (s.rwCount ≥ s.rf / 2 + 1) := by omega
+    simp [h, this]
+  · have : s.rwCount ≥ s.rf / 2 + 1 := by omega
+    simp [h, this]
+theorem clusterElectionMajority (s : Cluster.Sys) :
+    decide (s.regCount ≥ s.quorum) = Gen.canSignal s.regCount 0 s.rf 0 := by
+  rw [canSignal]; rfl
+theorem clusterAck (attached failed : Nat) : Ctl.majorityOk attached failed = Gen.mwWriteOk attached 0 failed 0 :=
+  (mwWrite attached failed).symm
 
 /-- the controller's range check over `int64` (no wrap-around: the expression does not add):
     for non-negative lengths an I/O is refused iff it does not lie inside `[0, size]` -/
